@@ -14,6 +14,7 @@ def _c01():
         ("R-ATOMIC", "no validation refusal is reachable after a dataset mutation (handlers: after the success continuation of a mutating engine call; engine methods: after a DATA-MUT site)",
          rules_cmd.rule_atomic("C01")),
         ("R-INT-CANON", "integers stored as text are read through the std i64 parser plus a round-trip (canonical form, whole i64 range); the INCR family takes the stored number from such a parser", rules_int.make_int_canon("C01")),
+        ("R-WRITE-MUST", "the engine methods behind commands whose success always writes (APPEND, INCR family, LPUSH/RPUSH, XADD) reach an Ok result only through a dataset mutation", rules_cmd.rule_write_must),
         ("R-EXPIRE-KEEP", "in the engine methods behind in-place modifying commands a freshly constructed StoredValue (no TTL) enters the key space only where the key has no live entry: the TTL survives in-place modifications", rules_expire.rule_keep),
     ]
 
@@ -52,6 +53,7 @@ def _c05():
         ("R-ERRPROP-IO", "no error of the Io/Connection class (which the connection loop takes for a vanished peer) can propagate out of process_normal_command: no `?` on std::io::Error and no Io/Connection construction along the error flow", rules_conn.rule_errprop_io),
         ("R-REPLY1", "each iteration of the frame loop pushes exactly one reply; the loop is not left mid-batch", rules_conn.rule_reply1),
         ("R-PARSEERR", "a protocol error from parse_frame is queued/sent as an error reply on every path (no silent break)", rules_conn.rule_parseerr),
+        ("R-READ-FEED", "once Connection::read has fed the parser in a call it returns `data available`: no error / `nothing read` exit is reachable after a feed (path-sensitive), so received commands are always parsed", rules_conn.rule_read_feed),
         ("R-PARSE-DRAIN", "the loop draining the parser ends only when parse_frame reports an incomplete buffer or an error (no frame budget that strands complete commands until the next read)", rules_conn.rule_parse_drain),
         ("R-CODEC-SHORTTEST", "a non-panicking content test on an open-ended sub-slice of the input whose negative outcome leads to a protocol error is dominated by a length test covering the bytes examined (no error decided from bytes that have not arrived)", rules_conn.rule_codec_shorttest),
         ("R-PARSEERR-CLOSE", "the consumer of queued protocol errors pushes an error reply and requests the connection to be closed", rules_conn.rule_parseerr_close),
@@ -95,6 +97,7 @@ def _c11():
     return [
         ("R-AOF-SET", "every dispatcher arm that can reach a dataset mutator is in the write set (AOF, replication, auto-save share it); every write-set name has an arm", rules_aof.rule_set),
         ("R-AOF-PATH", "every mutator call site reachable from the event loop lies under process_normal_command's append hook, which is gated by is_write_command and precedes the dispatch", rules_aof.rule_path),
+        ("R-AOF-ONCE", "a function that appends to the AOF itself does not also run the command through process_normal_command (whose hook appends it again): every effect is represented once", rules_aof.rule_once),
         ("R-AOF-DB", "the appended record determines the database", rules_aof.rule_db),
         ("R-AOF-RAND", "no command with a random outcome is appended verbatim", rules_aof.rule_rand),
         ("R-AOF-FLUSH", "every path from the serialisation of the frame to a normal return of append_command passes a flush of the buffered writer", rules_aof.rule_flush_all_paths),
@@ -125,6 +128,7 @@ def _c13():
         ("R-BLK-NOTIFY", "every dispatcher arm that can grow a list notifies blocked clients, once per pushed element", rules_block.rule_notify),
         ("R-BLK-REGPAIR", "blocked_on_key / blocked_keys are updated together; registration and Blocked state are set together", rules_block.rule_regpair),
         ("R-DISC-SIB", "both connection-removal sites perform the same clean-up set (blocking, pub/sub, monitor)", rules_block.rule_disc_sib),
+        ("R-BLK-TIMEOUTS", "the timeout pass scans every registry on every call; it may skip the scan only under a cached deadline all of whose writes are derived from the blocked clients' deadlines (no reset that forgets later deadlines)", rules_block.rule_timeout_scan),
         ("R-BLK-EOF", "blocked connections are not excluded from reading (disconnect detection)", rules_block.rule_eof),
         ("R-BLK-UNREGALL", "unregistering a client removes every entry it has in a key's queue (retain, or a removal inside a loop that searches again)", rules_block.rule_unreg_all),
         ("R-BLK-FIFO", "a key's waiter queue is appended at the back, served from the front and otherwise edited only by order-preserving operations", rules_block.rule_fifo),
@@ -169,6 +173,7 @@ def _c16():
         ("R-CG-CURSOR", "a delivery advances the group cursor on both sides of the NOACK test", rules_stream.rule_cg_cursor),
         ("R-CG-START", "the start position given at creation initialises the delivery cursor", rules_stream.rule_cg_start),
         ("R-ATOMIC", "group administration refused for a bad argument has no effect (no refusal after a mutation)", rules_cmd.rule_atomic("C16")),
+        ("R-CG-CURSOR-READ", "the delivery cursor is consulted only where entries are delivered or the cursor is administered: XACK / XCLAIM / XPENDING are decided by the pending list alone", rules_stream.rule_cg_cursor_readers),
         ("R-CG-IDLE", "idle times (claim thresholds, XPENDING idle column) are computed from last_delivery, never from delivered_at", rules_stream.rule_cg_idle),
         ("R-SORTED-SEARCH", "a sequence that some function looks up by binary search is kept sorted by every function that grows it (order test of the element, insert at the searched position, or a sort on every path)", rules_order.rule_sorted_search(("storage::stream::", "storage::consumer_groups::"))),
         ("R-CG-BOUNDS", "XPENDING's cached ID bounds are derived from the pending index (recomputed, min/max with the old bound, or stored under a comparison), and every index mutation updates them on every path", rules_stream.rule_cg_bounds),
@@ -236,6 +241,7 @@ def _c03():
         ("R-ATOMIC", "no validation refusal reachable after a dataset mutation (handlers and engine methods of these commands)", rules_cmd.rule_atomic("C03")),
         ("R-EMPTY", "every engine method that shrinks a collection has a reachable emptiness test followed by removal of the key", rules_cmd.rule_empty),
         ("R-INT-CANON", "HINCRBY reads the stored field through the canonical integer parser (std parse over the whole i64 range + round trip)", rules_int.make_int_canon("C03")),
+        ("R-SETALG-MISSING", "in the operand loops of SUNION/SDIFF/SINTER a later key that does not exist is the empty set: union and difference go on with the next key, the intersection ends empty", rules_coll.rule_setalg_missing),
         ("R-REMOVE-ITER", "a loop that removes at an ascending index does not advance the index in the iteration that removed (adjacent matches would be skipped: LREM)", rules_coll.rule_remove_iter),
     ]
 
